@@ -475,6 +475,21 @@ Definition dispatch_last (reset setroute : bool) (ms : list (option N)) : N :=
   match dispatch_chain reset setroute ms with Some i => i | None => i_request end.
 (* what a brand-new request object dispatched to the same URL is looked up with *)
 Definition fresh_iface (m : option N) : N := match m with Some r => r | None => i_request end.
+(* request.invoke_exception_view looks exception views up with request_iface.combined: the combined interface
+   of the route (id 3 for the route interface 2 of the harness's world); IRequest.combined is IRequest *)
+Definition combined_iface (i : N) : N := if N.eqb i 2 then 3%N else i.
+Definition lookup_iface (cl rq : N) : N := if N.eqb cl 1 then combined_iface rq else rq.
+
+(* ---- a commit on the live registry: the view actions run one after the other, each one is the whole register
+   program (registration AND clear inside the same action); when an action of the commit raises, the actions
+   executed before it stay in force and the ones behind it never run.  [acts]: the update lists of the view
+   actions that were executed; [first]: the thread id of the first one. *)
+Fixpoint commit_trace (first : tid) (acts : list (list update)) : list label :=
+  match acts with
+  | [] => []
+  | ups :: r => SpawnRegister ups :: Step first :: Step first :: commit_trace (S first) r
+  end.
+Definition commit_R (acts : list (list update)) (R0 : reg) : reg := fold_left (fun Rg ups => rapply ups Rg) acts R0.
 
 (* the programs of the current tree, as translated by the facts extractor *)
 Definition std_wb (tg : target) : list instr := [Lock; Write tg; Unlock].
@@ -660,14 +675,15 @@ Definition put_answer (o : option (option (option view))) : val :=
    registry [2; id], or a request dispatched by the Router [3; id; [classifier; context iface; name]; ms]
    where ms lists, oldest first, which route (request interface id, or nothing) matched in each dispatch
    of the SAME request object up to and including this one: the request type of the lookup is computed
-   here, from the regenerated facts about Router.handle_request *)
+   here, from the regenerated facts about Router.handle_request (classifier 1 = request.invoke_exception_view on
+   that request object after its last dispatch: the combined interface) *)
 Definition get_top (v : val) : option top :=
   match v with
   | VL [VI 2%Z; _] => Some TReinit
   | VL [VI 3%Z; id; VL [cl; cx; nm]; ms] =>
       olet id := get_N id in olet cl := get_N cl in olet cx := get_N cx in olet nm := get_N nm in
       olet ms := get_list_of (get_opt get_N) ms in
-      Some (TOp (OLookup id (cl, dispatch_last router_resets_iface router_sets_route_iface ms, cx, nm) []))
+      Some (TOp (OLookup id (cl, lookup_iface cl (dispatch_last router_resets_iface router_sets_route_iface ms), cx, nm) []))
   | _ => olet o := get_op 12 v in Some (TOp o)
   end.
 Definition top_keys (t : top) : list key := match t with TOp o => op_keys 12 o | TReinit => [] end.
@@ -741,3 +757,14 @@ Definition expect_claim (km : key_mode) (LP RP : list instr) : Prop :=
     expect sro km LP RP (init R0) tr (fun _ => None) j = Some vs ->
     threads (exec sro km LP RP tr (init R0)) j = Some t -> cont t = [] ->
     tkind t = KLookup /\ tres t = Some vs.
+
+(* the resolution orders are a FIXED oracle of every theorem.  If the resolution order of an interface could be
+   rewritten between two lookups (sro before, sro' after) without the cache being cleared, the claim would be: *)
+Definition sro_change_claim (LP RP : list instr) : Prop :=
+  forall sro sro' R0 tr1 k tr2,
+    let st1 := exec sro KeyFull LP RP tr1 (init R0) in
+    let st2 := exec sro' KeyFull LP RP (SpawnLookup k :: tr2) st1 in
+    quietb st1 = true ->
+    reg_free sro' KeyFull LP RP st1 (SpawnLookup k :: tr2) = true ->
+    exists t, threads st2 (ntid st1) = Some t /\ tkind t = KLookup /\ tkey t = k /\
+              (cont t = [] -> tres t = Some (lookup_all sro' (R st1) k)).
